@@ -2,6 +2,10 @@
 from .facts import callee_name, norm_name
 
 
+import re
+_FMT_RE = re.compile(r" as std::fmt::(Display|Debug|Binary|LowerHex|UpperHex|Octal|LowerExp|UpperExp|Pointer)>::fmt$")
+
+
 class CallGraph:
     def __init__(self, facts):
         self.f = facts
@@ -38,8 +42,8 @@ class CallGraph:
                         if "fn" in o:
                             nm = callee_name({"func": o})[0]
                             if nm in self.f.bodies:
+                                # taking the address is not a call: reached only through indirect calls
                                 self.addr_taken.add(nm)
-                                es.add(nm)
                         if "promoted" in o:
                             pn = "%s::promoted[%d]" % (b.name.split("::promoted[")[0], o["promoted"])
                             if pn in self.f.bodies:
@@ -62,7 +66,14 @@ class CallGraph:
                     for ty, methods in self.impl_methods.items():
                         base = ty.split("<")[0]
                         if base and base in blob:
-                            es.update(methods)
+                            for m in methods:
+                                # formatting impls are only reached through the fmt machinery of the matching trait
+                                fm = _FMT_RE.search(m)
+                                if fm:
+                                    tr = fm.group(1).lower()
+                                    if not (("fmt" in nm and ("new_" + tr) in nm) or (tr == "display" and "ToString" in nm) or (tr in nm.lower() and "fmt" in nm)):
+                                        continue
+                                es.add(m)
                 for a in t["args"]:
                     if a.get("k") == "const" and "fn" in a:
                         an = callee_name({"func": a})[0]
